@@ -530,7 +530,9 @@ TUpd ==
                                                         IF alt.ok /\ GraphDiff(alt.g, obs) = ""
                                                         THEN "update-expressions-read-the-pre-statement-graph"
                                                         ELSE IF alt2.ok /\ GraphDiff(alt2.g, obs) = ""
-                                                        THEN "update-expressions-read-the-graph-at-clause-start" ELSE "none",
+                                                        THEN "update-expressions-read-the-graph-at-clause-start"
+                                                        ELSE IF GraphDiff(SharedRelProps(out.g), SharedRelProps(obs)) = ""
+                                                        THEN "parallel-relationships-share-one-property-record" ELSE "none",
                                              before |-> sizes(gr), predicted |-> sizes(out.g), observed |-> sizes(obs),
                                              rep |-> IF "rep" \in DOMAIN Meta THEN Meta.rep ELSE 0, query |-> Rec[l].query])))
         ELSE
